@@ -48,7 +48,9 @@ def _from_ninja():
 def _synthesised():
     """Fallback when /repo/_build is absent: every .cxx under src with the standard include dirs."""
     units = {}
-    inc = ["-I" + os.path.join(REPO, "src/include"), "-I/usr/include/hdf5/serial", "-O2", "-DNDEBUG", "-std=gnu++17"]
+    # the one generated header (stir/config.h) comes from a copy kept with the checker when there is no build directory
+    fallback = os.path.join(os.path.dirname(os.path.abspath(__file__)), "fallback_include")
+    inc = ["-I" + os.path.join(REPO, "src/include"), "-I" + fallback, "-I/usr/include/hdf5/serial", "-O2", "-DNDEBUG", "-std=gnu++17"]
     for root, _dirs, files in os.walk(os.path.join(REPO, "src")):
         for fn in files:
             if fn.endswith(".cxx"):
